@@ -196,6 +196,12 @@ def invalid_classes(rng):
     for c in (b'e', b'E', b'+', b'-', b'.', b'e+', b'-.'):
         for L in (63, 64, 70, 200):
             C['long-number-runs'] += [b'-' + (c * L)[:L], b'1' + (c * L)[:L], b'-' + b'0' * L + c, b'--' + b'1' * L]
+    # whitespace ends at 0x20: the bytes just above it, DEL and the high bytes that are blanks in some
+    # single-byte encodings are not skipped between tokens
+    nw = []
+    for c in (b'!', b'#', b'\x7f', b'\x80', b'\x85', b'\xa0', b'\xff', b'\xc2\xa0', b'\xe2\x80\x83'):
+        nw += [b'[1,' + c + b'2]', c + b'1', b'[' + c + b']', b'{' + c + b'"a":1}', b'{"a"' + c + b':1}', b'{"a":' + c + b'1}', b'[1' + c + b']', b'{"a":1' + c + b'}', b'[1' + c + b',2]', b'{"a":1,' + c + b'"b":2}']
+    C['not-whitespace'] = nw
     # at most one byte order mark, and only at the very start
     B = corpus.BOM
     C['bom'] = [B + B + b'1', B + B + B + b'[true]', B + B + b'{"a":[1,2]}', B + B, B + B + B, B + b' ' + B + b'1', B + B + b' null ', B * 4 + b'"s"',
@@ -209,7 +215,7 @@ def invalid_classes(rng):
 PLACEMENTS = [('top', lambda x: x), ('array', lambda x: b'[' + x + b']'), ('array2', lambda x: b'[1,' + x + b']'),
               ('object', lambda x: b'{"a":' + x + b'}'), ('nested', lambda x: b'{"a":[{"b":' + x + b'}]}'), ('ws', lambda x: b' \n' + x + b'\t ')]
 
-EDIT_ALPHABET = b'{}[],:"\\ 0-1.eEtnfau\x00/\x01\x7f'
+EDIT_ALPHABET = b'{}[],:"\\ 0-1.eEtnfau\x00/\x01\x7f!\xa0'
 
 
 def single_edits(t):
@@ -509,7 +515,7 @@ def finish(prop, tier, results):
     if prop == 'C03':
         rc = {k[9:]: v for k, v in tot.stats.items() if k.startswith('rejclass:')}
         cov['reject_claims_by_class'] = rc
-        need = ['bom', 'unbalanced', 'mismatched', 'commas', 'colons', 'keys', 'literals', 'numbers', 'quotes', 'escapes', 'hex4', 'surrogates', 'truncated', 'nesting']
+        need = ['not-whitespace', 'bom', 'unbalanced', 'mismatched', 'commas', 'colons', 'keys', 'literals', 'numbers', 'quotes', 'escapes', 'hex4', 'surrogates', 'truncated', 'nesting']
         missing = [c for c in need if not any(k.startswith('invalid:' + c) for k in rc)]
         if missing:
             inconclusive = 'coverage floor: no reject claim in classes %s' % missing
